@@ -362,6 +362,9 @@ var universes = map[string]universe{
 	// single component "a" + <8-byte type 8> + "b" (what Component.HashInto feeds per component is type
 	// and value), and versus the 1-byte-type reading /a%08b
 	"ambig": {prefixes: []string{"/a", "/a/b", "/a%00%00%00%00%00%00%00%08b", "/a%08b"}, faces: []uint64{1, 2}, costs: []uint64{1}, strats: []string{mcName}},
+	// sibling prefixes whose components differ in TYPE only (equal value bytes): generic x vs 32=x (keyword),
+	// version 1 vs segment 1, at the first and at the second level
+	"typed": {prefixes: []string{"/a/x", "/a/32=x", "/a/v=1", "/a/seg=1", "/x", "/32=x"}, faces: []uint64{1, 2}, costs: []uint64{1}, strats: []string{mcName}},
 	"small": {prefixes: []string{"/", "/a", "/a/b", "/a/b/c"}, faces: []uint64{1}, costs: []uint64{1, 2}, strats: []string{mcName}},
 	"full":  {prefixes: []string{"/", "/a", "/a/b", "/a/b/c", "/a/b/c/d", "/a/x", "/e"}, faces: []uint64{1, 2}, costs: []uint64{1, 2}, strats: []string{brName, mcName}},
 	"deep":  {prefixes: []string{"/", "/a", "/a/b", "/a/b/c", "/a/b/c/d", "/a/b/c/d/e", "/a/b/c/d/e/f", "/a/b/c/d/e/f/g", "/a/b/x", "/a/b/c/d/e/x"}, faces: []uint64{1}, costs: []uint64{1}, strats: []string{mcName}},
@@ -395,6 +398,7 @@ func main() {
 				c = append(c, explore.Config{Name: fmt.Sprintf("deep m=%d", m), MaxDepth: dd, MaxDev: -1})
 				if m <= 2 {
 					c = append(c, explore.Config{Name: fmt.Sprintf("ambig m=%d", m), MaxDepth: d, MaxDev: -1})
+					c = append(c, explore.Config{Name: fmt.Sprintf("typed m=%d", m), MaxDepth: d, MaxDev: -1})
 				}
 			}
 			ad := 3
@@ -415,7 +419,7 @@ func main() {
 		Rule: "BFS over histories of InsertNextHop/RemoveNextHop/ClearNextHops/SetStrategy/UnSetStrategy on the real tree FIB and the real hash-table FIB (m=1..6) side by side; after every transition every lookup name (each prefix, one and two unknown components below it) and both listings are compared with a reference map; states de-duplicated on reference map + private shape of both tables",
 		Assumptions: []string{
 			"equal canonical state (reference map + tree node dump + hash-table real/virtual table dump) implies equal futures",
-			"name universes are finite: small (4 nested prefixes, fixpoint), full (7 prefixes incl. siblings, 2 faces, 2 costs), deep (chain to depth 7 crossing every m)",
+			"name universes are finite: small (4 nested prefixes, fixpoint), full (7 prefixes incl. siblings, 2 faces, 2 costs), deep (chain to depth 7 crossing every m), ambig (names whose components concatenate to the same bytes), typed (sibling components that differ in type only)",
 		},
 	})
 }
